@@ -13,6 +13,7 @@ fn main() {
     }
     panic::set_hook(Box::new(|_| {}));
     if args[0] == "--enum" {
+        panic::set_hook(Box::new(|_| {}));
         let tier = args.get(2).map(|s| s.as_str()).unwrap_or("quick");
         match enumcheck::run(&args[1], tier) {
             Some(v) => println!("{}", v),
